@@ -141,7 +141,7 @@ def _simple_helper(fn, allow_nested=True):
     for n in ast.walk(fn):
         if isinstance(n, (ast.Global, ast.Nonlocal, ast.Yield, ast.YieldFrom)):
             return None
-    if fn.decorator_list:
+    if fn.decorator_list and not (len(fn.decorator_list) == 1 and isinstance(fn.decorator_list[0], ast.Name) and fn.decorator_list[0].id == 'staticmethod'):
         return None
     extra = (a.vararg.arg if a.vararg else None, a.kwarg.arg if a.kwarg else None, [x.arg for x in a.kwonlyargs], list(a.kw_defaults))
     return [x.arg for x in a.args], body[:-1], body[-1].value, a.defaults, extra
@@ -328,6 +328,7 @@ class Inliner:
         self.helpers = {}       # name -> FunctionDef (module level, private)
         self.methods = {}       # (class name, method name) -> FunctionDef (private methods)
         self.local_helpers = {}  # name -> nested FunctionDef (set while a local closure is being inlined)
+        self.static_methods = {}  # (class name, method name) -> (FunctionDef, 'staticmethod' | 'classmethod')
         for n in tree.body:
             if isinstance(n, ast.FunctionDef) and n.name.startswith('_') and not n.name.startswith('__'):
                 self.helpers[n.name] = n
@@ -335,9 +336,12 @@ class Inliner:
                 for m in n.body:
                     if isinstance(m, ast.FunctionDef) and m.name.startswith('_') and not m.name.startswith('__') and not m.decorator_list:
                         self.methods[(n.name, m.name)] = m
+                    elif isinstance(m, ast.FunctionDef) and m.name.startswith('_') and not m.name.startswith('__') and len(m.decorator_list) == 1 \
+                            and isinstance(m.decorator_list[0], ast.Name) and m.decorator_list[0].id in ('staticmethod', 'classmethod'):
+                        self.static_methods[(n.name, m.name)] = (m, m.decorator_list[0].id)
 
     def run(self):
-        if not (self.helpers or self.methods):
+        if not (self.helpers or self.methods or self.static_methods):
             return
         for n in self.tree.body:
             if isinstance(n, ast.FunctionDef):
@@ -359,6 +363,11 @@ class Inliner:
             for nm in (f.attr, '_%s%s' % (cls.lstrip('_'), f.attr) if f.attr.startswith('__') else f.attr):
                 if (cls, nm) in self.methods:
                     return self.methods[(cls, nm)], True
+        if isinstance(f, ast.Attribute) and isinstance(f.value, ast.Name) and (f.value.id in ('self', 'cls') and cls is not None or any(c == f.value.id for c, _ in self.static_methods)):
+            owner_cls = cls if f.value.id in ('self', 'cls') else f.value.id
+            hit = self.static_methods.get((owner_cls, f.attr))
+            if hit is not None and hit[1] == 'staticmethod':
+                return hit[0], False        # a private static method is a plain function
         return None, False
 
     def expand_call(self, call, cls, depth, owner=None):
